@@ -1,0 +1,26 @@
+//go:build verif
+
+// Contracts for to_nsq (C20), checked by nsqvc. Comment-only file.
+// Assumed contracts of bufio.Reader.ReadBytes and nsq.Producer.Publish: .trusted/relay.spec.
+
+package main
+
+// The record of a read: the data without its trailing delimiter IF it has one.
+//@ pred terminated(line []byte, delim byte) := (len(line) >= 1 && line[len(line)-1] == delim)
+//@ fn recLen(line []byte, delim byte) int := (terminated(line, delim) ? len(line) - 1 : len(line))
+// b is exactly the first n bytes of the buffer line (same backing array, same offset: byte-exact, no copy).
+//@ pred isPrefix(b []byte, line []byte, n int) := (base(b) == base(line) && off(b) == off(line) && len(b) == n)
+
+//@ func readAndPublish(r *bufio.Reader, delim byte, producers map[string]*nsq.Producer) error
+//@   props C20
+//@   requires r != nil
+//@   requires[flag-initialised] topic != nil
+//@   requires[producers-nonnil] forall k string :: {producers[k]} has(producers, k) ==> producers[k] != nil
+//@   ensures[record-exact] pubCount > old(pubCount) ==> isPrefix(lastPubBody, readLine, recLen(readLine, delim)) && lastPubTopic == *topic
+//@   ensures[empty-nothing] recLen(readLine, delim) == 0 ==> pubCount == old(pubCount)
+// (the converse - a non-empty record reaches every producer - needs the visited set of the map range
+//  in a loop invariant, which the contract language cannot name: see ENGINE GAPS in NOTES.md)
+//@   modifies readLine, pubCount, lastPubTopic, lastPubBody
+//@   loop 0
+//@     invariant[each-publish-exact] pubCount > old(pubCount) ==> lastPubBody == line && lastPubTopic == *topic
+//@     invariant[count] pubCount >= old(pubCount)
